@@ -2514,7 +2514,10 @@ setattr_trait(
         }
 
         if (!changed) {
-            changed = (old_value != value);
+            /* Compare with the object that is going to be stored (which, for
+               traits that store the original value, is not the validated
+               one), so that re-assigning the identical object is no change. */
+            changed = (old_value != new_value);
         }
     }
 
